@@ -107,7 +107,24 @@ StrayInit ==
                  <<Entry(<< >>, "s1", "k1", LinkD("s1", <<GoodSig("k1")>>, {}, Variant(proper))),
                    Entry(<< >>, "s1", "k1:" \o form, LinkD("s1", <<GoodSig("k1")>>, {}, Variant(stray)))>>, {})
 
-MCInit == (LatticeInit \/ MixInit \/ LookAlikeInit \/ TwoSubsInit \/ StrayInit) /\ VInitRest
+\* two (three) inspections that depend on the ORDER the layout lists them in: the first creates a file which the
+\* rules of a later one require among its materials - they run in the listed order, every time
+PNew == <<"n", "e", "w">>
+ICmd(effect) == [kind |-> "exit", code |-> 0, effect |-> effect,
+                 path |-> IF effect = "create" THEN PNew ELSE << >>, digest |-> "h2"]
+IMake == [name |-> "i1", namec |-> <<"i", "1">>, cmd |-> ICmd("create"),
+          em |-> <<Simple("ALLOW", <<"*">>)>>, ep |-> <<Simple("ALLOW", <<"*">>)>>]
+INeed(nm, nc) == [name |-> nm, namec |-> nc, cmd |-> ICmd("none"),
+                  em |-> <<Simple("REQUIRE", PNew), Simple("ALLOW", <<"*">>)>>, ep |-> <<Simple("ALLOW", <<"*">>)>>]
+InspOrderInit ==
+  \E three \in BOOLEAN :
+     scn = Build(LayoutD(<<GoodSig("o1")>>, 1000, <<"k1", "k2", "k3">>,
+                         <<StepD("s1", <<"k1">>, 1, << >>, <<Simple("ALLOW", <<"*">>)>>)>>,
+                         <<IMake, INeed("i2", <<"i", "2">>)>> \o (IF three THEN <<INeed("i0", <<"i", "0">>)>> ELSE << >>)),
+                 Own("o1"),
+                 <<Entry(<< >>, "s1", "k1", LinkD("s1", <<GoodSig("k1")>>, {}, Variant("A")))>>, {})
+
+MCInit == (LatticeInit \/ MixInit \/ LookAlikeInit \/ TwoSubsInit \/ StrayInit \/ InspOrderInit) /\ VInitRest
 
 
 MCSpec == MCInit /\ [][VNext]_vars
